@@ -48,6 +48,7 @@ class BaseTranslateFilter:
 
     name = "base"
     re_vars = re.compile(r"(?<!%)%\((\w+)\)s")
+    re_format = re.compile(r"%%|%\((\w+)\)s")
     with_context = True
 
     def __init__(
@@ -67,18 +68,21 @@ class BaseTranslateFilter:
         self, context: RenderContext, message_text: str, message_vars: dict[str, Any]
     ) -> str:
         """Return the message string formatted with the given message variables."""
-        with context.extend(namespace=message_vars):
-            _vars = {
-                k: to_liquid_string(
-                    context.resolve(k), autoescape=context.env.autoescape
-                )
-                for k in self.re_vars.findall(message_text)
-            }
+        autoescape = context.env.autoescape
 
-        # Missing variables get replaced by the current `Undefined` type and we're
-        # converting all values to a string, so a KeyError or a ValueError should
-        # be impossible.
-        return message_text % _vars
+        def _replace(match: "re.Match[str]") -> str:
+            name = match.group(1)
+            if name is None:
+                return "%"  # an escaped percent sign, `%%`
+            # Missing variables get replaced by the current `Undefined` type.
+            return to_liquid_string(context.resolve(name), autoescape=autoescape)
+
+        # Only `%(name)s` and `%%` are special. Any other percent sign is literal
+        # text, so we can't hand the message to printf-style `%` formatting.
+        with context.extend(namespace=message_vars):
+            text = self.re_format.sub(_replace, message_text)
+
+        return Markup(text) if isinstance(message_text, Markup) else text
 
     def _resolve_translations(self, context: RenderContext) -> Translations:
         return cast(
